@@ -73,7 +73,24 @@ fn reuse_sequence<S: Shredder + 'static>(name: &str, max: usize, seed: u64, sk: 
     let mut calls = 0u64;
     let sizes = [max, 0usize, 200.min(max), max, 1, max / 2, max, 64.min(max), max.saturating_sub(1), 3, max];
     let mut stored: Vec<Vec<ValidatedShred>> = Vec::new();
+    // slices shredded by EVERY shredder type: fed to S they pass the shred count, the layout check and (mostly) the
+    // Reed-Solomon / Merkle stage and fail late (padding, size, payload parsing) - the instance must forget them
+    let mut foreign: Vec<Vec<ValidatedShred>> = Vec::new();
+    for (k, len) in [max.min(32_000), 1usize, max / 3].into_iter().enumerate() {
+        let sl = Slice { slot: Slot::new(2), slice_index: slice_index(k as u64), is_last: false, parent: None, data: rng.bytes(len) };
+        for v in 0..4 { if let Ok(Ok(a)) = shred_v(v, &sl, sk) { foreign.push(a); } }
+    }
     for r in 0..rounds {
+        if r % 3 == 2 && !foreign.is_empty() {
+            let src = &foreign[rng.below(foreign.len() as u64) as usize];
+            let pat = rng.below(3);
+            let mut a1: Arr = std::array::from_fn(|i| { let keep = match pat { 0 => i < 31 || i == 32, 1 => i % 2 == 0 || i >= 32, _ => i >= 16 && i < 52 }; if keep { Some(src[i].clone()) } else { None } });
+            let mut a2: Arr = a1.clone();
+            let fresh = catch_unwind(AssertUnwindSafe(|| S::default().deshred(&mut a1).map(|x| x.data.clone()).map_err(err_code))).map_err(|_| ());
+            let reused = with_reused::<S, _>(|i| i.deshred(&mut a2).map(|x| x.data.clone()).map_err(err_code));
+            calls += 1;
+            if fresh != reused { findings.push(format!("shredder:{}:reused-instance-differs:deshred-of-foreign-slice", name)); }
+        }
         let len = sizes[r % sizes.len()];
         let slice = Slice { slot: Slot::new(3 + r as u64), slice_index: slice_index(0), is_last: r % 2 == 0, parent: None, data: rng.bytes(len) };
         // deshred something of ANOTHER size first (every other round), then shred
